@@ -61,17 +61,17 @@ def s6(v):
 def file_anonymizer(fcfg, undo=False, **kw):
     nc = load.nc()
     pp, pa = fcfg.get("pp"), fcfg.get("pa")
-    return nc.af.FileAnonymizer(
-        anon_pwd=kw.pop("anon_pwd", False),
-        anon_ip=not undo,
-        salt=fcfg["salt"],
-        undo_ip_anon=undo,
-        preserve_prefixes=None if pp is None else list(pp),
-        preserve_networks=None if pa is None else list(pa),
-        preserve_suffix_v4=fcfg.get("B4"),
-        preserve_suffix_v6=fcfg.get("B6"),
-        **kw,
-    )
+    opt = {}
+    # arguments that are None are OMITTED, so the callee's own defaults are exercised as library users do
+    if pp is not None:
+        opt["preserve_prefixes"] = list(pp)
+    if pa is not None:
+        opt["preserve_networks"] = list(pa)
+    if fcfg.get("B4") is not None:
+        opt["preserve_suffix_v4"] = fcfg["B4"]
+    if fcfg.get("B6") is not None:
+        opt["preserve_suffix_v6"] = fcfg["B6"]
+    return nc.af.FileAnonymizer(anon_pwd=kw.pop("anon_pwd", False), anon_ip=not undo, salt=fcfg["salt"], undo_ip_anon=undo, **opt, **kw)
 
 
 def run_io(fa, text):
